@@ -225,6 +225,25 @@ def check_json_slug(crate, rep):
             ok = False
     rep.add("C20.JSON", "C20.JSON:json_encode:delegates", ok, j.where(0), "json_encode is serde_json::to_string / to_string_pretty of the value itself (fidelity reduces to "
             "`Serialize for Value`, C19)" + ("" if ok else " — VIOLATED"))
+    # every value json_encode returns comes from the serde_json result (through map_err) or is an argument error via `?`
+    rets = []
+    for bb, idx, st in j.stmts():
+        if idx == "t":
+            if st["k"] == "call" and st["dest"]["l"] == 0 and not st["dest"]["p"]:
+                rets.append((bb, callee_def(st), st))
+        elif st["k"] == "assign" and st["pl"]["l"] == 0 and not st["pl"]["p"]:
+            rets.append((bb, "assign:" + st["rv"]["k"] + ":" + str(st["rv"].get("variant")), st))
+    ok = bool(rets)
+    for bb, what_, st in rets:
+        if what_.endswith("from_residual"):
+            continue
+        if what_.endswith("::map_err"):
+            leaves = tr.operand(st["args"][0])
+            if leaves and all(l.kind == "call" and l.detail[0].startswith("serde_json::to_string") for l in leaves):
+                continue
+        ok = False
+    rep.add("C20.JSON", "C20.JSON:json_encode:returns-only-serde_json", ok, j.where(0), "every return of json_encode is `serde_json result.map_err(..)` or a propagated argument error "
+            "(%d return sites)" % len(rets) + ("" if ok else " — VIOLATED: %s" % [w for b_, w, s_ in rets][:4]))
     s = crate.one("slug::slug")
     calls = [callee_def(t) for bb, t in s.calls()]
     ok = calls == ["slug::slugify"] or (len(calls) == 1 and calls[0].endswith("slugify"))
